@@ -1,7 +1,8 @@
 /-
   Lemmas about the end-to-end model Model/Pipeline.lean (property C01):
     parseDataE_eq      the loader variant that also returns the final context agrees with Loader.parseData
-    decodeStream_np    decode_stream never panics when the decoders are total (C03's DecodersTotal)
+    decodeStream_np    decode_stream never panics when no decoder does (`DecNP`: clause 1 of C03's DecodersTotal,
+                       a theorem since Lemmas/LoaderDecoders.lean `applyFilter_no_panic`; Props/C01.lean discharges it)
     dumpRoot_ok        dump_root's breadth-first traversal finishes within its budget |objU|+1, for every
                        definition map and root (cyclic graphs included): the processed set is duplicate-free
                        and stays inside the finite universe `TC.Term.objU`, which is closed under components
@@ -15,6 +16,10 @@ import Parsley.Lemmas.LoaderNoPanic
 import Parsley.Lemmas.TypeCheckTerm
 namespace Parsley.PipelineLemmas
 open Parsley Parsley.Obj Parsley.Loader Parsley.Pipeline
+
+/-- no stream-filter decoder reaches a panic site (clause 1 of `LoaderNoPanic.DecodersTotal`; proved outright in
+    Lemmas/LoaderDecoders.lean, which this file does not import) -/
+def DecNP : Prop := ∀ (f : Filters.Filter) (d : Bytes) (p : String), Filters.applyFilter Loader.ext f d ≠ .panic p
 
 /-! ## the loader with its context -/
 theorem parseObjectsE_eq (hofs : Nat) (st : St) (infos : List ObjInfo) (s : Bytes) :
@@ -122,7 +127,7 @@ theorem filters_np (d : Filters.Dict) (p : String) : Filters.filters d ≠ .pani
       · exact namesOnly_np _ _ _
     · simp
 
-theorem runChain_np (hdec : LoaderNoPanic.DecodersTotal) : ∀ (fs : List Filters.Filter) (x : Bytes) (p : String),
+theorem runChain_np (hdec : DecNP) : ∀ (fs : List Filters.Filter) (x : Bytes) (p : String),
     Filters.runChain Loader.ext fs x ≠ .panic p := by
   intro fs
   induction fs with
@@ -133,9 +138,9 @@ theorem runChain_np (hdec : LoaderNoPanic.DecodersTotal) : ∀ (fs : List Filter
     split
     · exact ih _ _
     · simp
-    · rename_i m hm; exact absurd hm (hdec.1 _ _ _)
+    · rename_i m hm; exact absurd hm (hdec _ _ _)
 
-theorem decodeStream_np (hdec : LoaderNoPanic.DecodersTotal) (d : Filters.Dict) (c : Bytes) (p : String) :
+theorem decodeStream_np (hdec : DecNP) (d : Filters.Dict) (c : Bytes) (p : String) :
     Filters.decodeStream Loader.ext d c ≠ .panic p := by
   unfold Filters.decodeStream
   split
@@ -146,7 +151,7 @@ theorem decodeStream_np (hdec : LoaderNoPanic.DecodersTotal) (d : Filters.Dict) 
   · simp
   · rename_i m hm; exact absurd hm (filters_np _ _)
 
-theorem decodeObjStream_np (hdec : LoaderNoPanic.DecodersTotal) (kvs : List (Bytes × Obj)) (sc : Prim.StreamContent)
+theorem decodeObjStream_np (hdec : DecNP) (kvs : List (Bytes × Obj)) (sc : Prim.StreamContent)
     (p : String) : decodeObjStream kvs sc ≠ .panic p := decodeStream_np hdec _ _ _
 
 /-! ## dump_root terminates within its budget and never panics -/
@@ -268,7 +273,7 @@ theorem pushNew_inv : ∀ (cs q : List Obj) (p : List TC.Obj), (∀ c ∈ cs, to
       simp only [List.length_append, List.length_cons, List.length_nil] at i2
       omega
 
-theorem bfs_ok (hdec : LoaderNoPanic.DecodersTotal) (enc : Bool) : ∀ (f : Nat) (q : List Obj) (p : List TC.Obj),
+theorem bfs_ok (hdec : DecNP) (enc : Bool) : ∀ (f : Nat) (q : List Obj) (p : List TC.Obj),
     BInv defs root q p → q.length + ((U defs root).length - p.length) < f → bfs enc defs f q p = .ok () := by
   intro f
   induction f with
@@ -298,7 +303,7 @@ theorem bfs_ok (hdec : LoaderNoPanic.DecodersTotal) (enc : Bool) : ∀ (f : Nat)
         · exact hrec
       · exact hrec
 
-theorem dumpRoot_ok (hdec : LoaderNoPanic.DecodersTotal) (enc : Bool) : dumpRoot enc defs root = .ok () := by
+theorem dumpRoot_ok (hdec : DecNP) (enc : Bool) : dumpRoot enc defs root = .ok () := by
   unfold dumpRoot bfsFuel
   apply bfs_ok defs root hdec
   · refine ⟨?_, ?_, by simp⟩
@@ -315,6 +320,106 @@ theorem dumpRoot_ok (hdec : LoaderNoPanic.DecodersTotal) (enc : Bool) : dumpRoot
     have h1 : 1 ≤ (TC.Term.objU (toGraph defs) (toTC root)).length := by simp [TC.Term.objU]
     simp only [List.length_cons, List.length_nil]
     omega
+
+/-! ### the depth labels of dump_root as written (`bfsD`): below the number of processed objects -/
+
+/-- every queued label is smaller than the number of processed objects -/
+def DInv (q : List (Obj × Nat)) (p : List TC.Obj) : Prop := ∀ x ∈ q, x.2 + 1 ≤ p.length
+
+theorem pushNewD_eq (lim d : Nat) (hlim : (U defs root).length ≤ lim) :
+    ∀ (cs : List Obj) (q : List (Obj × Nat)) (p : List TC.Obj), (∀ c ∈ cs, toTC c ∈ U defs root) →
+    BInv defs root (q.map (·.1)) p → DInv q p → d + 1 ≤ p.length →
+    ∃ q', pushNewD lim d cs q p = some (q', (pushNew cs (q.map (·.1)) p).2) ∧
+      q'.map (·.1) = (pushNew cs (q.map (·.1)) p).1 ∧ DInv q' (pushNew cs (q.map (·.1)) p).2 := by
+  intro cs
+  induction cs with
+  | nil => intro q p _ _ hd _; exact ⟨q, rfl, rfl, hd⟩
+  | cons c t ih =>
+    intro q p hcs h hd hdp
+    have hc := hcs c (by simp)
+    have ht : ∀ c ∈ t, toTC c ∈ U defs root := fun x hx => hcs x (by simp [hx])
+    unfold pushNewD pushNew
+    by_cases hcon : p.contains (toTC c) = true
+    · rw [if_pos hcon, if_pos hcon]
+      exact ih q p ht h hd hdp
+    · rw [if_neg hcon, if_neg hcon]
+      have hnm : toTC c ∉ p := by simpa using hcon
+      have hnd : (toTC c :: p).Nodup := List.nodup_cons.mpr ⟨hnm, h.nodup⟩
+      have hsub : ∀ x ∈ toTC c :: p, x ∈ U defs root := by
+        intro x hx
+        simp only [List.mem_cons] at hx
+        rcases hx with hx | hx
+        · subst hx; exact hc
+        · exact h.pU x hx
+      have hlen := TC.Term.nodup_length_le _ _ hnd hsub
+      simp only [List.length_cons] at hlen
+      rw [if_neg (by omega)]
+      have h' : BInv defs root ((q ++ [(c, d + 1)]).map (·.1)) (toTC c :: p) := by
+        refine ⟨?_, hsub, hnd⟩
+        intro o ho
+        simp only [List.map_append, List.map_cons, List.map_nil, List.mem_append, List.mem_singleton] at ho
+        rcases ho with ho | ho
+        · exact h.qU o ho
+        · subst ho; exact hc
+      have hd' : DInv (q ++ [(c, d + 1)]) (toTC c :: p) := by
+        intro x hx
+        simp only [List.mem_append, List.mem_singleton] at hx
+        simp only [List.length_cons]
+        rcases hx with hx | hx
+        · have := hd x hx; omega
+        · subst hx; simp only; omega
+      have := ih (q ++ [(c, d + 1)]) (toTC c :: p) ht h' hd' (by simp only [List.length_cons]; omega)
+      simpa only [List.map_append, List.map_cons, List.map_nil] using this
+
+/-- **the labelled loop is the unlabelled one** as long as the universe of the traversal has at most `lim`
+    objects: `depth + 1` cannot overflow before `lim` distinct objects have been processed -/
+theorem bfsD_eq_bfs (lim : Nat) (hlim : (U defs root).length ≤ lim) (enc : Bool) :
+    ∀ (f : Nat) (q : List (Obj × Nat)) (p : List TC.Obj), BInv defs root (q.map (·.1)) p → DInv q p →
+    bfsD lim enc defs f q p = bfs enc defs f (q.map (·.1)) p := by
+  intro f
+  induction f with
+  | zero => intro q p _ _; simp [bfsD, bfs]
+  | succ f ih =>
+    intro q p hinv hd
+    cases q with
+    | nil => simp [bfsD, bfs]
+    | cons od q =>
+      obtain ⟨o, d⟩ := od
+      have ho := hinv.qU o (by simp)
+      have hq : BInv defs root (q.map (·.1)) p :=
+        ⟨fun x hx => hinv.qU x (by simp only [List.map_cons, List.mem_cons]; exact Or.inr hx), hinv.pU, hinv.nodup⟩
+      have hdq : DInv q p := fun x hx => hd x (by simp [hx])
+      have hdp : d + 1 ≤ p.length := hd (o, d) (by simp)
+      obtain ⟨q', e1, e2, e3⟩ := pushNewD_eq defs root lim d hlim (kidsOf defs o) q p (kids_in_U defs root o ho) hq hdq hdp
+      obtain ⟨i1, _⟩ := pushNew_inv defs root (kidsOf defs o) (q.map (·.1)) p (kids_in_U defs root o ho) hq
+      have hrec := ih q' (pushNew (kidsOf defs o) (q.map (·.1)) p).2 (by rw [e2]; exact i1) e3
+      rw [e2] at hrec
+      simp only [List.map_cons]
+      unfold bfsD bfs
+      simp only [e1]
+      split
+      · split
+        · split <;> first | rfl | exact hrec
+        · exact hrec
+      · exact hrec
+
+theorem dumpRootD_eq (hlim : (U defs root).length ≤ depthLim) (enc : Bool) :
+    dumpRootD enc defs root = dumpRoot enc defs root := by
+  unfold dumpRootD dumpRoot
+  apply bfsD_eq_bfs defs root depthLim hlim enc
+  · refine ⟨?_, ?_, by simp⟩
+    · intro o ho
+      simp only [List.map_cons, List.map_nil, List.mem_singleton] at ho
+      subst ho
+      simp [TC.Term.objU, TC.Term.objSubs_self]
+    · intro x hx
+      simp only [List.mem_singleton] at hx
+      subst hx
+      simp [TC.Term.objU, TC.Term.objSubs_self]
+  · intro x hx
+    simp only [List.mem_singleton] at hx
+    subst hx
+    simp
 end
 
 
